@@ -189,6 +189,24 @@ def shard_grid(desc, rec):
                 check_arg(rec, name, fn, req, list(a2), f"list(ndarray:{dt})", "accept")
                 check_arg(rec, name, fn, req, tuple(a2), f"tuple(ndarray:{dt})", "accept")
                 check_arg(rec, name, fn, req, a2.tolist(), f"ndarray:{dt}.tolist()", "accept")
+            # subclasses of list / tuple / ndarray are lists, tuples and arrays
+            import collections as _cl
+            P2 = _cl.namedtuple("P2", "x y")
+
+            class L2(list):
+                pass
+
+            class T2(tuple):
+                pass
+
+            class A2(np.ndarray):
+                pass
+            check_arg(rec, name, fn, req, P2(3, 4), "namedtuple(2)", "accept")
+            check_arg(rec, name, fn, req, L2([3, 4]), "list-subclass(2)", "accept")
+            check_arg(rec, name, fn, req, T2((3, 4)), "tuple-subclass(2)", "accept")
+            check_arg(rec, name, fn, req, np.array([3, 4], dtype=np.int32).view(A2), "ndarray-subclass(2,)", "accept")
+            check_arg(rec, name, fn, req, L2([3, 4, 5]), "list-subclass(3)", "refuse")
+            check_arg(rec, name, fn, req, np.array([[3, 4]], dtype=np.int32).view(A2), "ndarray-subclass(1,2)", "refuse")
             check_arg(rec, name, fn, req, [1, np.int32(2)], "list:mixed-int-npint", "accept")
             check_arg(rec, name, fn, req, (np.float32(1), 2), "tuple:mixed-npfloat-int", "accept")
         else:
@@ -203,6 +221,20 @@ def shard_grid(desc, rec):
             except Exception:
                 continue
             check_arg(rec, name, fn, req, a, f"ndarray{tuple(req)}:{odt}", "either")
+    # both viewport arguments at once: accepted iff each of the two is a two-element list / tuple / array
+    cands = [("arr2", np.array([1, 2], np.int32), True), ("list2", [1, 2], True), ("tuple2", (3, 4), True),
+             ("arr22", np.array([[0, 0], [640, 480]], np.int32), False), ("nested22", [[0, 0], [640, 480]], False),
+             ("nested22t", ((0, 0), (640, 480)), False), ("None", None, False), ("arr3", np.array([1, 2, 3], np.int32), False),
+             ("scalar", 5, False), ("list1", [7], False), ("str", "ab", False)]
+    for no, ao, oko in cands:
+        for ns, as_, oks in cands:
+            check_arg(rec, "CameraViewPort(origin,size)", lambda x: _seelab(view_port=tdfTypes.CameraViewPort(x[0], x[1])),
+                      "(2,),(2,)", (ao, as_), f"origin={no},size={ns}", "accept" if (oko and oks) else "refuse")
+        # ... and the second argument left out altogether
+        check_arg(rec, "CameraViewPort(origin,size)", lambda x: _seelab(view_port=tdfTypes.CameraViewPort(x)),
+                  "(2,),(2,)", ao, f"origin={no},size omitted", "refuse")
+        check_arg(rec, "CameraViewPort(origin,size)", lambda x: _seelab(view_port=tdfTypes.CameraViewPort(origin=x)),
+                  "(2,),(2,)", ao, f"origin={no} by keyword,size omitted", "refuse")
     # camera map: 1-D arrays of the matching length accepted; other ranks / kinds refused
     for shape in SHAPES:
         for dt in ("int16", "int32", "uint16"):
